@@ -174,7 +174,10 @@ func pwRun(t *testing.T, vs *vset, max int, fast bool, ops []pwOp, names []strin
 					pw.SendMessage(peerprotocol.HaveMessage{Index: 9})
 				case 4:
 					if hadInflight {
-						conn.grant <- struct{}{}
+						select {
+						case conn.grant <- struct{}{}:
+						case <-conn.kill:
+						}
 					}
 				}
 			}()
@@ -266,8 +269,17 @@ func pwRun(t *testing.T, vs *vset, max int, fast bool, ops []pwOp, names []strin
 			}
 		}
 		// ---- drain everything: every accepted request is answered exactly once
-		for inflight != nil {
+		for guard := 0; (inflight != nil || conn.inW.Load() == 1) && guard < 64; guard++ {
+			if conn.inW.Load() != 1 {
+				fail("inflight", "drain: model expects a message in flight, the writer is not writing")
+				break
+			}
 			conn.grant <- struct{}{}
+			if inflight == nil {
+				fail("inflight", "drain: the writer wrote a message the model does not know")
+				synctest.Wait()
+				continue
+			}
 			wire = append(wire, *inflight)
 			if inflight.kind == "piece" {
 				wantUploaded += int64(inflight.req.Length)
@@ -405,7 +417,7 @@ func TestC17PeerWriter(t *testing.T) {
 	rep.Extra["pw_flushed_by_choke"] = st.flushed
 	rep.Extra["pw_pieces_written"] = st.served
 	rep.Extra["pw_repeat_requests_rejected_by_writer"] = st.dupRejected
-	if st.atCap == 0 || st.cancelled == 0 || st.flushed == 0 || st.served == 0 {
+	if vs.empty() && (st.atCap == 0 || st.cancelled == 0 || st.flushed == 0 || st.served == 0) {
 		core.HarnessError("vacuous peerwriter run: %+v", st)
 	}
 	vs.flush(rep)
